@@ -170,6 +170,10 @@ func (e *Engine) VerifyFunc(fi *FuncInfo, fc *FuncContract) (rep funcReport) {
 			al := e.Heap(st, "$alloc", ArrSort(IntSort, BoolSort))
 			st.Assume(Or(Eq(t, IntLit(0)), Select(al, t)))
 		}
+		if fr.paramVals == nil {
+			fr.paramVals = map[*types.Var]*Term{}
+		}
+		fr.paramVals[v] = t
 		if fi.boxed[v] {
 			fr.bindBoxed(st, v, t)
 			return
@@ -252,13 +256,13 @@ func (fr *Frame) checkExit(st *State, fc *FuncContract, entryLocks map[string]st
 	}
 	// in postconditions parameter names denote their entry values
 	if r := sig.Recv(); r != nil {
-		if v, ok := fr.entry.vars[r]; ok {
+		if v, ok := fr.paramVals[r]; ok {
 			b[r.Name()] = &SVal{T: v, Ty: r.Type()}
 		}
 	}
 	for i := 0; i < sig.Params().Len(); i++ {
 		p := sig.Params().At(i)
-		if v, ok := fr.entry.vars[p]; ok {
+		if v, ok := fr.paramVals[p]; ok {
 			if _, shadow := b[p.Name()]; !shadow {
 				b[p.Name()] = &SVal{T: v, Ty: p.Type()}
 			}
